@@ -9,7 +9,7 @@ Part 1 (this section): one `BufferedWriteSyncer{WS: sink, Size: size}` driven by
 (`mk size wo so`; `wo = []` is the reliable sink).  `bufio.Writer` is modelled from Go's source including the
 sticky error, short writes and the large-write path.  All sizes, write lengths and histories are unbounded.
 
-Part 2: the thread machine (writers, syncers, stoppers, the flush goroutine, both mutexes, the `stop`/`done`
+Part 2: the thread machine (writers, syncers, stoppers, the flush goroutine, the mutex, the `stop`/`done`/`flushed`
 channels, ticks) — see `ZapVerif.C12.Conc` below. -/
 namespace ZapVerif.C12
 section Seq
